@@ -241,6 +241,26 @@ theorem nv_discrete_optimal (p : List Rat) (h b : Rat) (S : Nat) (hp : ∀ q ∈
 (the evaluation branch is total on the integers: `nvCost` is defined for every `y`). -/
 theorem nv_discrete_coherent (p : List Rat) (h b : Rat) (y : Int) : nvCost p h b y = h * lossNbar p y + b * lossN p y := rfl
 
+/-- Newsvendor with additive yield uncertainty and a discrete yield on `{0..D}` (pmf `pY`): ordering up to `S` when the
+demand is `d` costs `p·E[(R − Y)⁺] + h·E[(Y − R)⁺]` with `R = d − S` — a newsvendor in `R` whose "demand" is the
+yield and whose overage / underage rates are `p` / `h` (supply_uncertainty.py, equations (9.27)-(9.28)). -/
+def addYieldCost (pY : List Rat) (h p : Rat) (d S : Int) : Rat := nvCost pY p h (d - S)
+
+theorem addYield_is_newsvendor (pY : List Rat) (h p : Rat) (d S : Int) :
+    addYieldCost pY h p d S = p * lossNbar pY (d - S) + h * lossN pY (d - S) := rfl
+
+/-- `S* = d − F_Y⁻¹(h/(h+p))` is optimal among all levels `S ≤ d`: if `R*` is the first point at which the yield cdf
+reaches `h/(h+p)`, no level is cheaper than `d − R*` — for every yield pmf on `{0..D}`. -/
+theorem add_yield_optimal (pY : List Rat) (h p : Rat) (d : Int) (R : Nat) (hpmf : ∀ q ∈ pY, 0 ≤ q) (hsum : lsum pY = 1)
+    (hp : 0 < p) (hh : 0 ≤ h)
+    (hbelow : ∀ y, y < R → (p + h) * cdfAt pY y < h) (hat : h ≤ (p + h) * cdfAt pY R) (S : Int) (hS : S ≤ d) :
+    addYieldCost pY h p d (d - R) ≤ addYieldCost pY h p d S := by
+  have key := nv_discrete_optimal pY p h R hpmf hsum hp hh hbelow hat (d - S).toNat
+  simp only [addYieldCost]
+  have e1 : d - (d - (R : Int)) = (R : Int) := by omega
+  have e2 : (((d - S).toNat : Nat) : Int) = d - S := by omega
+  rw [e1, ← e2]; exact key
+
 example : eoqCost 8 (225/1000) 1300 (1040/3) ≥ 0 ∧ (225/1000 : Rat) * 4 * 4 = 2 * (18/10) * 1 := by decide +kernel
 
 end Stockpyl.EOQ
